@@ -354,11 +354,18 @@ def _s_textutils(e, c, a):
                 return ok(Int(v, it[0], it[1]))
         if it:
             return err(Agg([], ty='ParseIntError'))
-        if ty == 'f64':
-            try:
-                return ok(Float(float(s)))
-            except ValueError:
+        if ty in ('f64', 'f32'):
+            # Rust's float grammar: optional sign, digits with optional fraction / exponent, or inf / infinity / nan (case-insensitive); no surrounding blanks, no '_'
+            if not re.fullmatch(r'[+-]?(?:(?:\d+\.?\d*|\.\d+)(?:[eE][+-]?\d+)?|(?i:inf|infinity|nan))', s):
                 return err(Agg([], ty='ParseFloatError'))
+            x = float(s)
+            if ty == 'f32':
+                import struct
+                try:
+                    x = struct.unpack('<f', struct.pack('<f', x))[0]       # round to nearest single (ties to even), kept as the exact double of that single
+                except OverflowError:
+                    x = float('inf') if x > 0 else float('-inf')
+            return ok(Float(x))
         return e.call('<%s as FromStr>::from_str' % ty, [r])
     raise Unsupported('str::' + meth)
 
